@@ -3,6 +3,7 @@ import ExponaxModel.Model.Layout
 import ExponaxModel.Proofs.ReadOffSpectrum
 import ExponaxModel.Proofs.ReadOffParseval
 import ExponaxModel.Proofs.SpectralOpsEq
+import ExponaxModel.Proofs.SmallGapsSpectrum
 /-
 C17 — radial spectrum: every mode lands in its documented bin.
 Integer part: the half-open bins `[b−½, b+½)` of `get_spectrum`, written on `4|k|²`.
@@ -173,6 +174,22 @@ theorem C17_generated_get_fourier_coefficients [Gen.SpectralOps.HasRoundTo ℂ] 
         roundOpt round ((Transform.rfftnM D N (state.getD ch #[])).getD h 0 /
           Layout.scaling D N code (Layout.unflatten (Layout.wavenumberShape D N) h)))) :=
   get_fourier_coefficients_eq D N C hD hN m code hm round state
+
+
+
+/-! ### radial_binning = "average" is the sum divided by the number of stored modes of the bin (every D, state, bin), and
+every bin up to N/2 is populated -/
+
+open Exponax.SmallGaps in
+theorem C17_average_is_sum_over_count :
+    ∀ (D N : ℕ) (p : Bool) (u : Array ℂ) (b : ℕ),
+      (Spectrum.spectrum D N p true u).getD b 0 = (Spectrum.spectrum D N p false u).getD b 0 / ↑(binCount D N b) :=
+  @Exponax.SmallGaps.spectrum_average_eq_sum_div_count
+
+open Exponax.SmallGaps in
+theorem C17_every_bin_is_populated :
+    ∀ (D N b : ℕ), 1 ≤ D → 0 < N → b ≤ N / 2 → 0 < binCount D N b :=
+  @Exponax.SmallGaps.binCount_pos
 
 
 end Exponax
